@@ -77,7 +77,7 @@ pub fn cfg() -> Cfg {
     cfg.guide = 150;
     cfg.prefer_match = 80;
     cfg.stop_at_deviation = false;
-    cfg.verify_modes = vec![VerifyMode::Drop, VerifyMode::Verify, VerifyMode::ExplicitVerify, VerifyMode::Report];
+    cfg.verify_modes = vec![VerifyMode::Drop, VerifyMode::Verify, VerifyMode::ExplicitVerify, VerifyMode::Report, VerifyMode::ExplicitReport];
     cfg
 }
 
